@@ -531,6 +531,16 @@ def fam_abandon(mi, rnd, tier):
                     break
                 ops = [('dnew', rnd.randint(1, 9))] + po + [('handle', ev, plc.next(mi, ev), orc, b)]
                 out.append(ops + followups(plc))
+    # a future that is never polled has no effect: the wrapper is as it was (handle borrows it), the typed machine is gone
+    if mi.is_async:
+        for (leaf, ev) in edges[: (3 if tier == 'quick' else 10)]:
+            plc = PL()
+            po = path_ops(mi, leaf, True, plc)
+            if po is None:
+                continue
+            out.append([('dnew', rnd.randint(1, 9))] + po + [('unpolled', ev, plc.next(mi, ev)), ('unpolled', ev, plc.next(mi, ev))] + followups(plc))
+            plc = PL()
+            out.append([('dnew', rnd.randint(1, 9))] + path_ops(mi, leaf, True, plc) + [('into', leaf), ('unpolled', ev, plc.next(mi, ev)), ('drop',)])
     # typed abandonment (no wrapper): the machine is simply gone
     for (leaf, ev) in edges[:2]:
         calls = mi.calls(leaf, ev)
